@@ -373,6 +373,13 @@ def _glue_worker(seed):
     F = E.Fails()
     lib_table(F)
     glue_and_replay(F, seed)
+    # the SymPy backend's own setters (generic and momentum spellings): read back, partner coordinate and other groups untouched
+    from . import c15
+
+    class _Ob:
+        def check(self, oid, ok, d=None):
+            F.check("C08", oid.replace("sympy/", "sympy-glue/", 1), ok, d)
+    c15.sympy_part(_Ob())
     return F.n, F.bad
 
 
